@@ -36,9 +36,12 @@ fn natural_lines() -> Vec<String> {
 
 fn corpus() -> BoxedStrategy<Vec<Vec<String>>> {
     let small = select(LETTER_SETS).prop_flat_map(|letters| {
-        let word = proptest::collection::vec(select(letters), 1..=7).prop_map(|v| v.concat());
+        let word = prop_oneof![16 => proptest::collection::vec(select(letters), 1..=7), 1 => proptest::collection::vec(select(letters), 8..=20)].prop_map(|v| v.concat());
         let line = (proptest::collection::vec(word, 1..=5), any::<bool>()).prop_map(|(w, dbl)| w.join(if dbl { "  " } else { " " }));
-        proptest::collection::vec(proptest::collection::vec(line, 0..=4), 1..=2)
+        prop_oneof![
+            12 => proptest::collection::vec(proptest::collection::vec(line.clone(), 0..=4), 1..=2),
+            1 => proptest::collection::vec(proptest::collection::vec(line, 0..=20), 1..=3),
+        ]
     });
     let nat = natural_lines();
     if nat.is_empty() {
